@@ -1084,7 +1084,87 @@ func (u *Unit) defineSpecFunc(env *SpecEnv, sf *SpecFunc) *specDef {
 	}
 	u.W.Declare(d.smtName, fmt.Sprintf("(%s %s (%s) %s %s)", kw, d.smtName, strings.Join(params, " "), d.resSort, body.String()))
 	u.specDefs[sf.Name] = d
+	if sf.FoldSlice != "" && !u.NoFoldAxioms {
+		if ax := u.foldAxiom(sf, d, params); ax != "" {
+			u.W.Declare(d.smtName+"!fold", ax)
+			if u.FoldsUsed == nil {
+				u.FoldsUsed = map[string]*ContractFile{}
+			}
+			u.FoldsUsed[sf.Name] = env.cf
+			u.Assumed["fold lemma fold:"+sf.Name+" (extensionality of the recursive spec function over its slice prefix; proved by induction as its own obligation)"] = true
+		}
+	}
 	return d
+}
+
+// foldParts splits the SMT parameter list "(name sort)" of a fold spec function into the slice
+// parameter, the count parameter, the heap of the slice's elements and everything else.
+type foldParts struct {
+	names, sorts []string
+	iSlice, iN   int
+	iHeap        int
+}
+
+func (u *Unit) foldPartsOf(sf *SpecFunc, d *specDef, params []string) *foldParts {
+	fp := &foldParts{iSlice: -1, iN: -1, iHeap: -1}
+	for _, p := range params {
+		p = strings.TrimSuffix(strings.TrimPrefix(p, "("), ")")
+		i := strings.Index(p, " ")
+		fp.names = append(fp.names, p[:i])
+		fp.sorts = append(fp.sorts, p[i+1:])
+	}
+	for i, p := range sf.Params {
+		if p.Name == sf.FoldSlice {
+			fp.iSlice = i
+		}
+		if p.Name == sf.FoldN {
+			fp.iN = i
+		}
+	}
+	if fp.iSlice < 0 || fp.iN < 0 || fp.iSlice >= len(d.paramTypes) {
+		return nil
+	}
+	sl, ok := d.paramTypes[fp.iSlice].Underlying().(*types.Slice)
+	if !ok {
+		return nil
+	}
+	hk := "S:" + TypeKey(sl.Elem())
+	for i, k := range d.heapKeys {
+		if k == hk {
+			fp.iHeap = len(sf.Params) + i
+		}
+	}
+	if fp.iHeap < 0 {
+		return nil
+	}
+	return fp
+}
+
+// foldAxiom: if two slices agree on their first n elements (each in its own heap) the fold over
+// them agrees. Instantiated on pairs of applications of the function.
+func (u *Unit) foldAxiom(sf *SpecFunc, d *specDef, params []string) string {
+	fp := u.foldPartsOf(sf, d, params)
+	if fp == nil {
+		u.specErr("specfold %s: %s must be a slice parameter whose elements the function reads, %s an int parameter", sf.Name, sf.FoldSlice, sf.FoldN)
+	}
+	u.W.At(Leaf("o!x", "Int"), Leaf("i!x", "Int")) // make sure `at` is declared before the axiom text
+	var binders []string
+	a := make([]string, len(fp.names))
+	b := make([]string, len(fp.names))
+	for i, n := range fp.names {
+		a[i] = n
+		b[i] = n
+		binders = append(binders, fmt.Sprintf("(%s %s)", n, fp.sorts[i]))
+		if i == fp.iSlice || i == fp.iHeap {
+			b[i] = n + "!2"
+			binders = append(binders, fmt.Sprintf("(%s %s)", b[i], fp.sorts[i]))
+		}
+	}
+	app1 := fmt.Sprintf("(%s %s)", d.smtName, strings.Join(a, " "))
+	app2 := fmt.Sprintf("(%s %s)", d.smtName, strings.Join(b, " "))
+	hyp := fmt.Sprintf("(forall ((k!f Int)) (=> (and (<= 0 k!f) (< k!f %s)) (= (select (select %s (s_ref %s)) (at (s_off %s) k!f)) (select (select %s (s_ref %s)) (at (s_off %s) k!f)))))",
+		a[fp.iN], a[fp.iHeap], a[fp.iSlice], a[fp.iSlice], b[fp.iHeap], b[fp.iSlice], b[fp.iSlice])
+	return fmt.Sprintf("(assert (forall (%s) (! (=> %s (= %s %s)) :pattern (%s %s))))", strings.Join(binders, " "), hyp, app1, app2, app1, app2)
 }
 
 func (u *Unit) opaqueSpec(name string) bool {
